@@ -373,6 +373,24 @@ def record_pure(tid: str, tt: list[list[int]], seed: int, kinds: list[str], per_
             r = drivers.find_single_node_LDOIs(graph if rng.random() < 0.5 else net)
             e["ldoi"] = [{"v": names.index(v) + 1, "val": int(x), "sp": vec(sp, names)} for (v, x), sp in sorted(r.items())]
         emit(e, call)
+    if "drivers" in kinds and "ldoi" in kinds:
+        # the documented way of amortising the LDOI table: compute it once, pass it to several driver queries; every
+        # query must answer as without the table, and the table must still be the LDOI table afterwards
+        e0 = _default(n)
+        e0["k"] = "ldoi"
+        table = {}
+
+        def call(e):
+            table.update(drivers.find_single_node_LDOIs(graph))
+            for sp in todo_spaces[: max(2, per_kind // 2)]:
+                ed = _default(n)
+                ed["k"] = "drivers"
+                ed["sp"] = list(sp)
+                r = drivers.find_single_drivers(space_of(sp, names), graph, LDOIs=table)
+                ed["drv"] = [{"v": names.index(v) + 1, "val": int(x)} for (v, x) in sorted(r)]
+                events.append(ed)
+            e["ldoi"] = [{"v": names.index(v) + 1, "val": int(x), "sp": vec(sp, names)} for (v, x), sp in sorted(table.items())]
+        emit(e0, call)
     if "drivers" in kinds:
         for sp in (todo_spaces if n <= 2 else todo_spaces[:per_kind]):
             e = _default(n)
@@ -559,7 +577,74 @@ def record_models(tasks: list[dict], outfile: str, procs: int = 16) -> dict:
     return {"traces": n, "skipped": skipped}
 
 
+def record_restricted(tid: str, tt: list[list[int]], seed: int, per_kind: int) -> dict:
+    """
+    trappist on a net DERIVED from a shared Petri net: the net of the whole network is built once, used for a few solver
+    calls (whatever the solver remembers about it is now there), restricted to a random subspace sp0, and the restricted net
+    is given to the solver.  The trace is judged against the network in which the variables fixed by sp0 are constants
+    (results are completed with the values of sp0); forward time only (the reversal of a constant is not a constant).
+    """
+    import biodivine_aeon as ba
+    from biobalm import trappist_core, petri_net_translation as pnt
+    devnull = os.open(os.devnull, os.O_WRONLY)
+    os.dup2(devnull, 2)
+    rng = random.Random(seed)
+    n = len(tt)
+    names = bn.names_for(n)
+    net = ba.BooleanNetwork.from_bnet(bn.render_bnet(tt, names))
+    assert list(net.variable_names()) == names
+    pn = pnt.network_to_petrinet(net)
+    for problem in ("max", "min"):
+        trappist_core.trappist(pn, problem=problem)          # earlier use of the parent net (default source detection)
+    while True:
+        sp0 = [2 if rng.random() < 0.6 else rng.randint(0, 1) for _ in range(n)]
+        if any(x == 2 for x in sp0) and any(x != 2 for x in sp0):
+            break
+    fixed = [i for i in range(n) if sp0[i] != 2]
+    free = [i for i in range(n) if sp0[i] == 2]
+
+    def sub(s):
+        for i in fixed:
+            s = (s | (1 << i)) if sp0[i] else (s & ~(1 << i))
+        return s
+    tt2 = [[sp0[i]] * (1 << n) if i in fixed else [tt[i][sub(s)] for s in range(1 << n)] for i in range(n)]
+    rpn = pnt.restrict_petrinet_to_subspace(pn, space_of(sp0, names))
+    events = []
+    for _ in range(per_kind):
+        e = _default(n)
+        e["k"] = "trappist"
+        e["frompn"] = True
+        e["problem"] = rng.choice(["min", "max", "max", "fix"])
+        ens = [2 if (i in fixed or rng.random() < 0.75) else rng.randint(0, 1) for i in range(n)]
+        if e["problem"] == "max" and all(ens[i] != 2 for i in free):
+            ens[rng.choice(free)] = 2
+        av = []
+        for _k in range(rng.choice([0, 0, 1, 2])):
+            a = [2 if (i in fixed or rng.random() < 0.5) else rng.randint(0, 1) for i in range(n)]
+            if any(x != 2 for x in a):
+                av.append(a)
+        mode = rng.choice(["auto", "auto", "none", "some"])
+        e["autosrc"] = mode == "auto"
+        e["srcs"] = [] if mode != "some" else sorted(i + 1 for i in rng.sample(free, rng.randint(1, len(free))))
+        e["limit"] = rng.choice([-1, -1, -1, 1, 2])
+        e["ensure"] = [sp0[i] if i in fixed else ens[i] for i in range(n)]
+        e["avoid"] = av
+        try:
+            r = trappist_core.trappist(
+                rpn, problem=e["problem"], solution_limit=None if e["limit"] < 0 else e["limit"],
+                ensure_subspace=space_of(ens, names), avoid_subspaces=[space_of(a, names) for a in av],
+                optimize_source_variables=None if e["autosrc"] else [names[i - 1] for i in e["srcs"]])
+            e["res"] = [[sp0[i] if i in fixed else v[i] for i in range(n)] for v in (vec(x, names) for x in r)]
+        except Exception as ex:  # noqa: BLE001
+            e["raised"] = True
+            e["exc"] = type(ex).__name__ + ": " + str(ex)[:100]
+        events.append(e)
+    return {"tid": tid, "net": {"n": n, "f": tt2, "inp": []}, "light": False, "events": events}
+
+
 def _work(task: dict) -> str:
+    if task.get("restricted"):
+        return json.dumps(record_restricted(task["tid"], task["tt"], task["seed"], task["per_kind"]))
     return json.dumps(record_pure(task["tid"], task["tt"], task["seed"], task["kinds"], task["per_kind"],
                                   task.get("exhaustive_small", False)))
 
